@@ -21,5 +21,7 @@ def run(ctx):
     ctx.assumptions += ["the thread-event signal/wait pair delivers the completion to the caller (C05 edge)"]
     runs = [[ctx.seed * 10 + i, 200 if ctx.thorough else 25] for i in range(4 if ctx.thorough else 2)]
     run_traces(ctx, "tr_apply", runs, "apply", r"explained-by-ApplyP.step (\d+)", "L-trace apply", "apply", timeout=120)
+    # more iterations than a 32-bit index can count, in order on a serial queue (about 2^32 invocations, some 9 s)
+    run_traces(ctx, "tr_apply", [[ctx.seed, 0, 1]], None, None, "L-api 2^32 + 3 iterations in order", "big", timeout=400)
     ctx.cov["rule"] = ("tr_apply: three client threads issue applies with n from the boundary set onto AUTO / global / serial / concurrent / concurrent->serial / "
                        "concurrent->concurrent targets, nested up to depth 2, barriers racing on the concurrent queue; distinct_nontrivial = da_index / da_todo transitions explained")
